@@ -116,6 +116,12 @@ pub fn c10_ops(c: &mut Ctx, a: W, b: W, f: f64) {
     let fmul = binop_forms_noassign!(c, "mul/f64,TF", &ins, f, ta, *);
     let _ = binop_forms_noassign!(c, "div/f64,TF", &ins, f, ta, /);
     let _ = binop_forms_noassign!(c, "rem/f64,TF", &ins, f, ta, %);
+    // the same object on both sides of the by-reference forms
+    cmp(c, "self/add", "&a + &a vs a + a", &ins, &g!(ta + ta), g!(&ta + &ta));
+    cmp(c, "self/sub", "&a - &a vs a - a", &ins, &g!(ta - ta), g!(&ta - &ta));
+    cmp(c, "self/mul", "&a * &a vs a * a", &ins, &g!(ta * ta), g!(&ta * &ta));
+    cmp(c, "self/div", "&a / &a vs a / a", &ins, &g!(ta / ta), g!(&ta / &ta));
+    cmp(c, "self/rem", "&a % &a vs a % a", &ins, &g!(ta % ta), g!(&ta % &ta));
     // negation
     let neg = g!(-ta);
     cmp(c, "neg", "-&x", &ins, &neg, g!(-&ta));
@@ -195,6 +201,8 @@ pub fn c10_traits(c: &mut Ctx, x: W, y: W, n: i32) {
     if others.iter().any(|o| *o != (p, q)) {
         c.viol("trait/is_sign", "differs", &ins, &[p as u64, q as u64], "a trait sign query differs from the inherent one".into());
     }
+    let r = g!(TwoFloat::copysign(&tx, &ty));
+    cmp(c, "trait/copysign", "Float", &ins, &r, g!(<TwoFloat as Float>::copysign(tx, ty)));
     let r = g!(tx.min(ty));
     cmp(c, "trait/min", "Float", &ins, &r, g!(<TwoFloat as Float>::min(tx, ty)));
     cmp(c, "trait/min", "FloatCore", &ins, &r, g!(<TwoFloat as FloatCore>::min(tx, ty)));
